@@ -444,16 +444,20 @@ class Parser:
             return ("tuple", items)
         if k == "id":
             segs = [self.eat()[1]]
+            generic = None
             while self.at("::"):
                 self.eat()
                 if self.at("<"):
-                    self.eat(); self._skip_generic()
+                    self.eat()
+                    g0 = self.i
+                    self._skip_generic()
+                    generic = "".join(t[1] for t in self.t[g0:self.i - 1])
                     continue
                 segs.append(self.eat()[1])
             if self.at("!"):
                 self.eat()
                 return self.parse_macro(segs[-1])
-            e = ("path", segs)
+            e = ("path", segs) if generic is None else ("path", segs, generic)
             if self.at("{") and not nostruct and segs[-1][0].isupper():
                 return self.parse_struct(segs)
             return e
